@@ -148,6 +148,7 @@ def run(ctx: Any, prog: Program) -> None:
     ctx.rule('C11.L11', 'de-duplicated string pools are searched for the terminated string and extended by exactly the searched bytes', floor=2)
     ctx.rule('C11.L12', 'a writer that may append to the very list it is writing (find_or_insert on its own view) iterates the live list, so appended elements are written too', floor=1)
     ctx.rule('C11.L14', 'a writer skips a record only when every field that record would carry is at its default', floor=1)
+    ctx.rule('C11.L28', 'a side record the reader attaches by subscripting its element list carries the position of its element in the written array', floor=1)
     ctx.rule('C11.L15', 'auxiliary lumps rebuilt by a writer are stored under the same version conditions the reader applies when it reads them', floor=10)
     ctx.rule('C11.L16', 'entity lump: a comma-separated value is taken for an output only when it has exactly the four separators the writer emits', floor=1)
     ctx.rule('C11.L17', 'an index that is written negated to mark a reversed element can never be 0: slot 0 of its table is reserved unconditionally', floor=1)
@@ -819,7 +820,76 @@ def run(ctx: Any, prog: Program) -> None:
                 ctx.check('C11.L14', not missing, bsp, cont, f'BSP.{qn} skips the rest of the record when `{" and ".join(U(t)[:40] for t in reversed(path_tests))}`, but the skipped part also writes '
                           f'{missing}: an element whose {(missing or ["?"])[0]} is set loses it (the reader rebuilds skipped records from defaults)', func=f'BSP.{qn}', text=f'{qn}: record skip covers every carried field')
     if n_skip < 1:
-        raise AnalysisError('L14: no record-skipping `continue` found in the lump writers (one confirmed by hand: _lmp_write_bmodels)')
+        # (a vanished anchor: no verdict for L14, but the rules below still report what they find)
+        ctx.shape('C11.L14', False, bsp, ms['_lmp_write_bmodels'], 'no record-skipping `continue` found in the lump writers (one confirmed by hand: _lmp_write_bmodels)', func='BSP._lmp_write_bmodels', text='bmodels: record skip')
+    # ---- L28: owner index of side records -------------------------------------------------------------------------------
+    # The reader builds its element list from the primary records and attaches each side record with `lst[k]`, k read from the side record.
+    # The writer must therefore write, in that slot, the element's position in the array of primary records: the counter of an
+    # enumerate() over the very list whose elements become the primary records (or list.index of it) - never a rank in a filtered list.
+    def _fmt_lit(c: ast.AST) -> Optional[str]:
+        return c.args[0].value if isinstance(c, ast.Call) and c.args and isinstance(c.args[0], ast.Constant) and isinstance(c.args[0].value, str) else None
+    n_owner = 0
+    for qn, fn in ms.items():
+        if not qn.startswith('_lmp_read_') or ('_lmp_write_' + qn[len('_lmp_read_'):]) not in ms:
+            continue
+        wfn = ms['_lmp_write_' + qn[len('_lmp_read_'):]]
+        # element lists of the reader: appended to inside a loop over iter_unpack(<primary fmt>, data)
+        prim: Dict[str, str] = {}
+        for lp in [l for l in walk_no_nested(fn) if isinstance(l, ast.For)]:
+            it_ = lp.iter
+            if isinstance(it_, ast.Call) and dotted(it_.func) in ('struct.iter_unpack', 'iter_unpack') and _fmt_lit(it_):
+                for c in ast.walk(lp):
+                    if isinstance(c, ast.Call) and isinstance(c.func, ast.Attribute) and c.func.attr == 'append' and isinstance(c.func.value, ast.Name):
+                        prim[c.func.value.id] = _fmt_lit(it_) or ''
+        if not prim:
+            continue
+        for asg in [a for a in ast.walk(fn) if isinstance(a, ast.Assign) and isinstance(a.targets[0], ast.Tuple) and isinstance(a.value, ast.Call)
+                    and dotted(a.value.func) in ('struct_read', 'struct.unpack', 'struct.unpack_from') and _fmt_lit(a.value)]:
+            names_ = [e.id if isinstance(e, ast.Name) else None for e in asg.targets[0].elts]
+            for sub in [x for x in ast.walk(fn) if isinstance(x, ast.Subscript) and isinstance(x.value, ast.Name) and x.value.id in prim and isinstance(x.slice, ast.Name) and x.slice.id in names_
+                        and isinstance(bsp.parents.get(x), ast.Assign)]:
+                side_fmt, slot, prim_fmt = _fmt_lit(asg.value), names_.index(sub.slice.id), prim[sub.value.id]
+                # the writer's primary loop(s): the list whose elements are packed with prim_fmt
+                prim_lists = set()
+                for lp in [l for l in ast.walk(wfn) if isinstance(l, ast.For)]:
+                    if any(isinstance(c, ast.Call) and (dotted(c.func) or '').endswith('pack') and _fmt_lit(c) == prim_fmt for c in ast.walk(lp)):
+                        it_ = lp.iter
+                        if isinstance(it_, ast.Call) and dotted(it_.func) == 'enumerate' and it_.args:
+                            it_ = it_.args[0]
+                        if isinstance(it_, ast.Name):
+                            prim_lists.add(it_.id)
+                ctx.shape('C11.L28', bool(prim_lists), bsp, wfn, f'no loop of BSP._lmp_write_{qn[10:]} packs the primary record {prim_fmt!r} from a named list', func=f'BSP._lmp_write_{qn[10:]}', text=f'{qn[10:]}: owner index of {side_fmt}')
+                packs = [c for c in ast.walk(wfn) if isinstance(c, ast.Call) and (dotted(c.func) or '').endswith('pack') and _fmt_lit(c) == side_fmt and len(c.args) > slot + 1
+                         and not (isinstance(c.args[slot + 1], ast.Constant) or (isinstance(c.args[slot + 1], ast.UnaryOp) and isinstance(c.args[slot + 1].operand, ast.Constant)))]
+                ctx.shape('C11.L28', bool(packs), bsp, wfn, f'no pack of the side record {side_fmt!r} with a computed owner index found', func=f'BSP._lmp_write_{qn[10:]}', text=f'{qn[10:]}: owner index of {side_fmt}')
+                for pk in packs:
+                    e_ = pk.args[slot + 1]
+                    n_owner += 1
+                    verdict: Optional[bool] = None
+                    why = ''
+                    if isinstance(e_, ast.Call) and isinstance(e_.func, ast.Attribute) and e_.func.attr == 'index' and isinstance(e_.func.value, ast.Name):
+                        verdict = e_.func.value.id in prim_lists
+                        why = f'it is the position in `{e_.func.value.id}`, not in the written list'
+                    elif isinstance(e_, ast.Name):
+                        anc = bsp.parents.get(pk)
+                        while anc is not None and anc is not wfn:
+                            if isinstance(anc, ast.For) and isinstance(anc.target, ast.Tuple) and anc.target.elts and isinstance(anc.target.elts[0], ast.Name) and anc.target.elts[0].id == e_.id \
+                                    and isinstance(anc.iter, ast.Call) and dotted(anc.iter.func) == 'enumerate':
+                                a0 = anc.iter.args[0] if anc.iter.args else None
+                                started = len(anc.iter.args) > 1 or bool(anc.iter.keywords)
+                                verdict = isinstance(a0, ast.Name) and a0.id in prim_lists and not started
+                                why = f'`{e_.id}` counts `{U(anc.iter)[:60]}`, not positions in the written list `{"/".join(sorted(prim_lists))}`'
+                                # a rebinding of the counter inside the loop
+                                if any(isinstance(x, ast.Name) and x.id == e_.id and isinstance(x.ctx, ast.Store) for st_ in anc.body for x in ast.walk(st_)):
+                                    verdict = None
+                                break
+                            anc = bsp.parents.get(anc)
+                    ctx.shape('C11.L28', verdict is not None, bsp, pk, f'owner index `{U(e_)[:40]}` is neither an enumerate() counter nor list.index()', func=f'BSP._lmp_write_{qn[10:]}', text=f'{qn[10:]}: owner index of {side_fmt}')
+                    if verdict is not None:
+                        ctx.check('C11.L28', verdict, bsp, pk, f'BSP.{qn} attaches each {side_fmt!r} record to `{sub.value.id}[{sub.slice.id}]`, the element built from the {sub.slice.id}-th {prim_fmt!r} record, but the writer stores '
+                                  f'`{U(e_)[:30]}`: {why} - the record is attached to another element when read back', func=f'BSP._lmp_write_{qn[10:]}', text=f'{qn[10:]}: owner index of {side_fmt}')
+    if n_owner < 1:
+        raise AnalysisError('L28: no side record with an owner index found (one confirmed by hand: the physics blocks of _lmp_write_bmodels)')
     # ---- L15: auxiliary lumps -----------------------------------------------------------------------------------------------
     n_aux = 0
     for qn, fn in ms.items():
@@ -995,6 +1065,7 @@ def run(ctx: Any, prog: Program) -> None:
 
 
 MUTANTS = [
+    {'id': 'bmodel_phys_index_by_rank', 'file': 'bsp.py', 'find': "        for i, model in enumerate(model_list):\n            yield struct.pack(\n                '<9fiii',", 'replace': "        for i, model in enumerate(model_list, 1):\n            yield struct.pack(\n                '<9fiii',", 'expect': 'C11.L28', 'note': 'round 11: owner index of the physics block'},
     {'id': 'prop_lighting_origin_defaulted_by_flag', 'file': 'bsp.py', 'find': "            flags = StaticPropFlags(flags)\n", 'replace': "            flags = StaticPropFlags(flags)\n            if StaticPropFlags.HAS_LIGHTING_ORIGIN not in flags:\n                lighting_origin = origin.copy()\n", 'expect': 'C11.L27'},
     {'id': 'detail_shape_size_never_written', 'file': 'bsp.py', 'find': "                shape_ang = prop.shape_angle\n                shape_size = prop.shape_size\n", 'replace': "                shape_ang = prop.shape_angle\n                shape_size = 1\n", 'expect': 'C11.L3'},
     {'id': 'faceids_rebuilt_by_every_split_faces_writer', 'file': 'bsp.py', 'find': "            if hammer_ids:\n                self.lumps[BSP_LUMPS.FACEIDS].data", 'replace': "            if get_orig_face is not None:\n                self.lumps[BSP_LUMPS.FACEIDS].data", 'expect': 'C11.L26'},
